@@ -134,7 +134,7 @@ def uke(V, dtype):
 
 # ---------------------------------------------------------------------------------------------- standardised CAV
 @unit('C09', 'calc_cav_dp', functions=['eqsig.im.calc_cav_dp'], modes=('bounded',), sizes=dict(pps=[2, 3], secs=[2, 3]),
-      thorough_sizes=dict(pps=[2, 3, 4, 5], secs=[2, 3, 4]), budget_ms=20000)
+      thorough_sizes=dict(pps=[2, 3, 4], secs=[2, 3]), budget_ms=20000)
 def cav_dp(V):
     st = {}
 
